@@ -90,7 +90,7 @@ def cases(tier, seed):
     # further scipy storage classes with a numeric .data array: DIA (as produced by scipy.sparse.diags) and BSR.  (LIL and DOK matrices make
     # the validating evaluator raise a TypeError on the unmodified tree - their .data is not a numeric array; they are treated as outside the
     # documented interface, see DESIGN 10.2)
-    for fmt in ("dia", "bsr"):
+    for fmt in ("dia", "bsr", "csr_dup", "csc_dup"):
         for vk in (["free", "boxed"], ["lower", "upper"]):
             for rows in ([("bilinear", "eq0")], [("sphere", "ranged"), ("affine", "upper")], []):
                 for obj in ("qfull", "cubic"):
@@ -189,6 +189,7 @@ def run_case(case):
         if not eq(its.x, rxs) or not eq(its.y, rys):
             bad("initial_iterate(scalar or missing start)", np.concatenate([its.x, its.y]), np.concatenate([rxs, rys]), [sx, sy])
     nev = 0
+    held = []
     for xu in pts:
         # transform_sol / restore_sol
         for y in ys:
@@ -233,6 +234,18 @@ def run_case(case):
                     for name, g, w in zip(("obj", "grad", "cons", "jac", "hess"), got, want):
                         if not eq(g, w):
                             bad(f"{tag}.{name}", g, w, {"x": xi.tolist(), "y": yi.tolist()})
+                    if len(held) < 24:
+                        # the objects themselves (not dense copies) are kept: an iterate caches what it was given
+                        with np.errstate(all="ignore"):
+                            objs = [src.obj_grad(xi), src.cons(xi) if m else None, src.cons_jac(xi) if m else None, src.lag_hess(xi, yi)]
+                        held.append((tag, xi.tolist(), objs, [T.grad(xi), T.cons(xi), T.jac(xi), T.hess(xi, yi)]))
+    for tag, xat, objs, wants in held:
+        for name, o, w in zip(("grad", "cons", "jac", "hess"), objs, wants):
+            if o is None:
+                continue
+            g = o.toarray() if hasattr(o, "toarray") else o
+            if not eq(g, w):
+                bad(f"{tag}.{name}|changed_by_later_evaluation", g, w, {"x": xat})
     nontriv = T.ns > 0 or bool(np.any(T.offset != 0)) or wsig not in ("none",)
     key = None
     if nontriv:
